@@ -371,10 +371,8 @@ def _inv(params):
         e = st.env
         need = ("chi2", "chi2_min", "counter", "mol2_positions")
         for n in need:
-            if e.get(n, pyvc.UNBOUND) is pyvc.UNBOUND:
+            if pyvc.local(st, n, SymConf if n == "mol2_positions" else None) is pyvc.UNBOUND:
                 return z3.BoolVal(False)
-        if not isinstance(e["mol2_positions"], SymConf):
-            return z3.BoolVal(False)
         g = st.ghost
         return z3.And(_num(e["chi2"]) == Chi2F(e["mol2_positions"].t),
                       e["mol2_positions"].t == g["held"],
